@@ -1385,16 +1385,19 @@ fn preprocess_initial_file(
     let mut condition_chain = ConditionChain::new();
 
     // Add initial macros
+    // Each one is processed like a "#define name value" line placed before the first line of the file
+    // So ## in the value is a concatenation and a later define replaces an earlier one with the same name
     for (name, value) in initial_defines {
-        // Register the value as a source file so its tokens have locations like any others
+        // Register the line as a source file so its tokens have locations like any others
         // Token pasting and diagnostics need the source text of the tokens they process
-        let value_file = file_loader
+        let text = format!("{name} {value}");
+        let define_file = file_loader
             .source_manager
-            .add_file(FileName(format!("<define {name}>")), value.to_string());
-        let value_location =
-            file_loader.get_source_location_from_file_offset(value_file, StreamLocation(0));
+            .add_file(FileName(format!("<define {name}>")), text.clone());
+        let define_location =
+            file_loader.get_source_location_from_file_offset(define_file, StreamLocation(0));
 
-        let tokens = match TokenStream::new(value, value_location)
+        let define_tokens = match TokenStream::new(&text, define_location)
             .suppress_trailing_endline()
             .read_to_end()
         {
@@ -1403,17 +1406,13 @@ fn preprocess_initial_file(
         };
 
         // A macro body is a single logical line - the expansion code relies on that
-        if tokens.iter().any(|t| t.0 == Token::Endline) {
+        if define_tokens.iter().any(|t| t.0 == Token::Endline) {
             return Err(PreprocessError::InvalidDefine(SourceLocation::UNKNOWN));
         }
 
-        macros.push(Macro {
-            name: name.to_string(),
-            is_function: false,
-            num_params: 0,
-            tokens,
-            location: SourceLocation::UNKNOWN,
-        });
+        let macro_def = Macro::parse(&define_tokens)?;
+        macros.retain(|m: &Macro| m.name != macro_def.name);
+        macros.push(macro_def);
     }
 
     preprocess_included_file(
